@@ -159,6 +159,32 @@ def same_iteration(W, anchor, other):
     return bo in inner[0]
 
 
+def enclosing_iteration_elements(W, A, e):
+    """element values of the iterations (closure invocations by iterator combinators, `for`/`while` loops) that enclose event e,
+    innermost first: a list of Val"""
+    import accum
+    out = []
+    chain = [c[0] for c in e.ctx]
+    for fid in reversed(chain):
+        if "{closure" in fid.rsplit("::", 1)[-1]:
+            for x in A.events:
+                if x.kind == "invoke" and x.name == fid:
+                    out += [a for a in x.extra.get("args", []) if hasattr(a, "atoms")]
+            continue
+        b = W.F.get(fid)
+        bb = block_in(fid, e)
+        if b is None or bb is None or bb < 0:
+            continue
+        succ, loops = accum._loops(b)
+        for l in sorted(loops, key=len):
+            if bb not in l:
+                continue
+            for x in A.calls(r"Iterator>?::next$"):
+                if x.fn == fid and x.bb in l and x.extra.get("dargs"):
+                    out.append(vfield(A.d(x.extra["dargs"][0]), "[*]"))
+    return out
+
+
 def independent_of(chk, W, rule, contract, vp, label, name, test, effect, detail_ok, detail_fail, extra=()):
     """Obligation: the effect selected by `effect(A)` is not control-dependent on the decisions whose predicate satisfies `test`:
     it stays reachable whichever way those decisions go (assume them all true, then all false).  Skipped when no such decision exists."""
